@@ -1,0 +1,25 @@
+//go:build verif
+// +build verif
+
+package core
+
+import "context"
+
+// This file only exists for builds with the "verif" tag: it exposes the package-private
+// entry points that already take "additional parameters for test", so that external
+// verification harnesses can exercise the index-file boundary with small file counts.
+
+// VerifUpload is implUpload with a configurable number of entries per index file
+func VerifUpload(ctx context.Context, bundle *Bundle, entriesPerFile uint, getKeys func() ([]string, error), opts ...Option) error {
+	return implUpload(ctx, bundle, entriesPerFile, getKeys, opts...)
+}
+
+// VerifPublish is implPublish with a configurable number of entries per index file
+func VerifPublish(ctx context.Context, bundle *Bundle, entriesPerFile uint, selectionPredicate func(string) (bool, error)) error {
+	return implPublish(ctx, bundle, entriesPerFile, selectionPredicate)
+}
+
+// VerifPublishMetadata is implPublishMetadata with a configurable number of entries per index file
+func VerifPublishMetadata(ctx context.Context, bundle *Bundle, publish bool, entriesPerFile uint) error {
+	return implPublishMetadata(ctx, bundle, publish, entriesPerFile)
+}
